@@ -2,7 +2,7 @@
    They exist so that the length rule of SCPI_ErrorPushEx, the description lookup and the
    SYST:ERR? wrapper are evaluated by extracted Gallina code, not by hand-written OCaml. *)
 From Coq Require Import Bool List NArith ZArith Lia.
-From M Require LexModel FmtModel FifoProof HeapProof QStatic ErrQueue ExprModel Generated.
+From M Require LexModel FmtModel FifoProof HeapProof QStatic ErrQueue ExprModel Generated NumDecode.
 Import ListNotations.
 Local Open Scope Z_scope.
 
@@ -43,3 +43,11 @@ Definition hq_systerr (s:QStatic.equeue) : QStatic.equeue * list Z :=
 Definition numlist_entry_tok (body:list N) (index:Z) : ExprModel.eres * bool * (Z*Z) * (Z*Z) :=
   let '(r, isr, (fo,fl), (to,tl_)) := ExprModel.numlist_walk (S (length body)) body 0 0 index in
   (r, isr, (fo + 1, fl), (to + 1, tl_)).
+
+(* SCPI_ExprNumericListEntryDouble: the walk, then SCPI_ParamToDouble (strtod at the token, which reads on to the closing parenthesis) *)
+Definition numlist_entry_double (body:list N) (index:Z) : ExprModel.eres * bool * Z * Z :=
+  let '(r, isr, (fo,_), (to,_)) := ExprModel.numlist_walk (S (length body)) body 0 0 index in
+  match r with
+  | ExprModel.EOK => (ExprModel.EOK, isr, NumDecode.strtod_bits (LexModel.drop fo (body ++ [41%N])), if isr then NumDecode.strtod_bits (LexModel.drop to (body ++ [41%N])) else 0)
+  | _ => (r, false, 0, 0)
+  end.
